@@ -9,7 +9,9 @@ EXPLANATION = (
     "under the looked-up type; nothing but register/clear removes entries (write frames); the only route from the lookup to user hooks is "
     "resolve (call-frame obligation on the AST). With the dict axiom (a hit never reaches __missing__) a repeat call consults nothing. The entry "
     "point and rewritten call sites indexing the table directly is the I/R layer of C03/C09; value-level isinstance checks inside dependent wrappers "
-    "run on every call by design and are outside the statement."
+    "run on every call by design and are outside the statement. frames.rebuild: the table is thrown away only by Ovld.compile, and every call site "
+    "of compile in the real AST is guarded by `if not <it>._compiled`, or is _update (the method set changed) or the bootstrap entry; `_compiled` and "
+    "`map` are written only by __init__ / compile; Ovld.__get__ / __call__ build iff not built (B)."
 )
 ASSUMPTIONS = ["value-level checks of dependent wrappers are not 'type-order or applicability computation'"]
 TRUSTED = ["dict.__getitem__ calls __missing__ only on a miss (CPython)"]
